@@ -16,6 +16,7 @@
 //	sw <validate> <nArb> <k> {<index>}*k      signer loop of checkSchnorrWithdrawFromSidechain
 //	blk <auxOk> <powOk> <tsOk> <maxTx> <flags> CheckBlockSanity on an assembled, serialized and decoded block (see execBlk)
 //	txs <height> <tx bytes> / blkc <block bytes> / cfm <confirm bytes>   systematic sweep on a real in-process node (see execTxs)
+//	tcc <nOutputs> <index> / rtd <tx|bc> <nPrograms> <code>   targeted: cross-chain output index, RevertToDPOS programs (see execTcc)
 //	rcr <code> / ina <tx|bc> <code>            RegisterCR key extraction; checkCRCArbitratorsSignatures m/n read (see execRcr, execIna)
 //	rdc <addrs> <np> {<code> <registered>}*    ReturnDepositCoin SpecialContextCheck signer loop (see execRdc)
 package main
@@ -56,6 +57,7 @@ import (
 	"github.com/elastos/Elastos.ELA/crypto"
 	"github.com/elastos/Elastos.ELA/dpos/state"
 	"github.com/elastos/Elastos.ELA/elanet/pact"
+	"github.com/elastos/Elastos.ELA/mempool"
 )
 
 func b2s(b bool) string {
@@ -716,10 +718,106 @@ func execCfm(t []string) string {
 	return "nopanic"
 }
 
+// ---------------------------------------------------------------- targeted ops (round 5)
+//
+//	tcc <nOutputs> <outputIndex>   TransferCrossChainAsset payload version 0 with one cross-chain address whose
+//	                               OutputIndexes[0] = <outputIndex> (a uint64), nOutputs cross-chain prefixed outputs:
+//	                               the real SpecialContextCheck → err index | later | panic
+//	rtd <tx|bc> <nPrograms> <code> RevertToDPOS: blockchain.CheckRevertToDPOSTransaction (bc; called by the DPoS
+//	                               network handler without any sanity check) or core/transaction's
+//	                               checkArbitratorsSignatures on the first program (tx) → reject-len | later | panic
+
+func execTcc(t []string) string {
+	nOut := atoi(t[1])
+	idx, err := strconv.ParseUint(t[2], 10, 64)
+	if err != nil {
+		panic("harness: bad index")
+	}
+	var outs []*ctypes.Output
+	for i := 0; i < nOut; i++ {
+		var ph common.Uint168
+		ph[0] = byte(contract.PrefixCrossChain)
+		ph[1] = byte(i)
+		outs = append(outs, &ctypes.Output{AssetID: core.ELAAssetID, Value: 100000000, ProgramHash: ph, Type: ctypes.OTNone, Payload: &outputpayload.DefaultOutput{}})
+	}
+	pl := &payload.TransferCrossChainAsset{CrossChainAddresses: []string{"sidechain-address"}, OutputIndexes: []uint64{idx},
+		CrossChainAmounts: []common.Fixed64{1}}
+	tx := functions.CreateTransaction(ctypes.TxVersion09, ctypes.TransferCrossChainAsset, payload.TransferCrossChainVersion, pl,
+		[]*ctypes.Attribute{}, []*ctypes.Input{}, outs, 0, []*program.Program{})
+	params := config.GetDefaultParams()
+	if e := tx.SetParameters(&transaction.TransactionParameters{Transaction: tx, BlockHeight: 100, Config: params,
+		BlockChain: blockchain.VerifC03Chain(params, nil)}); e != nil {
+		panic("harness: SetParameters")
+	}
+	tx.SetReferences(map[*ctypes.Input]ctypes.Output{})
+	cerr, _ := tx.SpecialContextCheck()
+	if cerr != nil && strings.Contains(cerr.Error(), "cross chain index") {
+		return "err index"
+	}
+	return "later"
+}
+
+func execRtd(t []string) string {
+	n := atoi(t[2])
+	var progs []*program.Program
+	for i := 0; i < n; i++ {
+		progs = append(progs, &program.Program{Code: exact(hx.UnHex(t[3])), Parameter: []byte{}})
+	}
+	var err error
+	if t[1] == "bc" {
+		tx := functions.CreateTransaction(ctypes.TxVersion09, ctypes.RevertToDPOS, 0, &payload.RevertToDPOS{}, []*ctypes.Attribute{},
+			[]*ctypes.Input{}, []*ctypes.Output{}, 0, progs)
+		err = blockchain.CheckRevertToDPOSTransaction(tx)
+	} else {
+		if n == 0 {
+			return "reject-len" // the core/transaction copy is only reached with the sanity-checked first program
+		}
+		err = transaction.VerifC03CheckArbitratorsSignatures(progs[0])
+	}
+	if err != nil && strings.Contains(err.Error(), "length not enough") {
+		return "reject-len"
+	}
+	return "later"
+}
+
+//	dpb <block bytes>      decode, then mempool.BlockPool.AddDposBlock (the entry point of blocks received from
+//	                       peers in the DPoS era: it looks at Transactions[0].Outputs()[0] BEFORE any sanity check)
+//	                       on the real node.  The generated blocks carry a DPoS-era height and never have a valid
+//	                       merged-mining proof, so nothing is ever connected.
+
+var realBlockPool *mempool.BlockPool
+
+func execDpb(t []string) string {
+	n := getNode()
+	if realBlockPool == nil {
+		realBlockPool = mempool.NewBlockPool(n.Params)
+		realBlockPool.Chain = n.Chain
+		realBlockPool.Store = n.Store
+		realBlockPool.IsCurrent = func() bool { return true }
+	}
+	lastStage = "undecodable"
+	blk := &types.Block{}
+	ok := false
+	func() {
+		defer func() { recover() }()
+		if err := blk.Deserialize(bytes.NewReader(hx.UnHex(t[1]))); err == nil {
+			ok = true
+		}
+	}()
+	if !ok {
+		return "nopanic"
+	}
+	lastStage = "rejected"
+	if _, _, err := realBlockPool.AddDposBlock(&types.DposBlock{Block: blk}); err == nil {
+		lastStage = "accepted"
+	}
+	return "nopanic"
+}
+
 // ---------------------------------------------------------------- exec
 
 func exec(t []string) string {
-	useLedger(t[0] == "txs" || t[0] == "blkc" || t[0] == "cfm")
+	useLedger(t[0] == "txs" || t[0] == "blkc" || t[0] == "cfm" || t[0] == "dpb")
 	switch t[0] {
 	case "std":
 		return b2s(contract.IsStandard(exact(hx.UnHex(t[1]))))
@@ -767,6 +865,12 @@ func exec(t []string) string {
 		return execBlkc(t)
 	case "cfm":
 		return execCfm(t)
+	case "dpb":
+		return execDpb(t)
+	case "tcc":
+		return execTcc(t)
+	case "rtd":
+		return execRtd(t)
 	case "rcr":
 		return execRcr(t)
 	case "ina":
@@ -797,7 +901,7 @@ func oracle(t []string, out string) *hx.Violation {
 
 // histogram key: op/class as hx does by default, and for the sweep ops the stage that was reached
 func bucket(t []string, out string) string {
-	if (t[0] == "txs" || t[0] == "blkc" || t[0] == "cfm") && out != "panic" {
+	if (t[0] == "txs" || t[0] == "blkc" || t[0] == "cfm" || t[0] == "dpb") && out != "panic" {
 		return t[0] + "/" + lastStage
 	}
 	f := strings.Fields(out)
@@ -812,7 +916,7 @@ func bucket(t []string, out string) string {
 }
 
 func nontrivial(t []string, out string) bool {
-	if t[0] == "txs" || t[0] == "blkc" || t[0] == "cfm" {
+	if t[0] == "txs" || t[0] == "blkc" || t[0] == "cfm" || t[0] == "dpb" {
 		return lastStage != "undecodable"
 	}
 	switch t[0] {
@@ -1091,6 +1195,9 @@ func genRun(g *hx.Gen) {
 				code = append([]byte{0x51, 33}, r.Bytes(33)...)
 			case 3: // standard
 				code = stdCode(keys[r.Intn(len(keys))])
+				if r.Chance(25) { // a 33-byte key whose first byte announces another point format
+					code[1] = byte(r.Pick(0x04, 0x06, 0x07, 0x00, 0x05))
+				}
 			case 4: // standard shaped, not CHECKSIG: the fall-through
 				code = stdCode(keys[r.Intn(len(keys))])
 				code[34] = byte(r.Pick(0, 0xAD, 0xAE, 0xAF))
@@ -1513,8 +1620,109 @@ func genBlkc(g *hx.Gen) {
 	}
 }
 
+func genTargeted(g *hx.Gen) {
+	r := g.R
+	for _, nOut := range []int{1, 2, 3} {
+		for _, idx := range []uint64{0, 1, 2, 3, 1 << 31, 1 << 32, 1<<63 - 1, 1 << 63, 1<<63 + 1, 1<<64 - 1, 1<<64 - 2} {
+			g.Emit("tcc %d %d", nOut, idx)
+		}
+	}
+	for l := 0; l <= 40; l++ {
+		c := r.Bytes(l)
+		for _, v := range []string{"tx", "bc"} {
+			for _, np := range []int{0, 1, 2} {
+				g.Emit("rtd %s %d %s", v, np, hx.Hex(c))
+			}
+		}
+	}
+	// ReturnSideChainDepositCoin whose special output names an on-chain transaction as "deposit transaction":
+	// each transaction of the genesis block (the ELA asset registration has no inputs), a random hash
+	n := getNode()
+	utxos, _ := n.UTXOs(0)
+	if len(utxos) == 0 {
+		return
+	}
+	addr, _ := n.Accounts[1].ProgramHash.ToAddress()
+	var hashes []common.Uint256
+	for _, tx := range n.Genesis.Transactions {
+		hashes = append(hashes, tx.Hash())
+	}
+	var rh common.Uint256
+	copy(rh[:], r.Bytes(32))
+	hashes = append(hashes, rh)
+	for _, h := range hashes {
+		for _, height := range []uint32{4000000, 900000} {
+			u := utxos[0]
+			out := &ctypes.Output{AssetID: core.ELAAssetID, Value: 1000, ProgramHash: n.Accounts[1].ProgramHash,
+				Type:    ctypes.OTReturnSideChainDepositCoin,
+				Payload: &outputpayload.ReturnSideChainDeposit{GenesisBlockAddress: addr, DepositTransactionHash: h}}
+			tx := functions.CreateTransaction(ctypes.TxVersion09, ctypes.ReturnSideChainDepositCoin, 0, &payload.ReturnSideChainDepositCoin{},
+				[]*ctypes.Attribute{{Usage: ctypes.Nonce, Data: r.Bytes(8)}},
+				[]*ctypes.Input{{Previous: ctypes.OutPoint{TxID: u.TxID, Index: uint16(u.Index)}}}, []*ctypes.Output{out}, 0,
+				[]*program.Program{{Code: n.Accounts[0].RedeemScript, Parameter: make([]byte, 65)}})
+			buf := new(bytes.Buffer)
+			if err := tx.Serialize(buf); err == nil {
+				g.Emit("txs %d %s", height, hx.Hex(buf.Bytes()))
+			}
+		}
+	}
+}
+
+// blocks as a peer can send them in the DPoS era: any height, first transaction of any type with 0..2 outputs
+// (first output to the destroy address or not), no transaction at all; never a valid merged-mining proof
+func genDpb(g *hx.Gen) {
+	r := g.R
+	n := getNode()
+	for _, height := range []uint32{5, 1000000, 4000000} {
+		for _, first := range []int{-1, 0, 1, 2} { // -1: no transactions; else type of the first transaction
+			for nOut := 0; nOut <= 2; nOut++ {
+				for _, destroy := range []bool{true, false} {
+					blk := &types.Block{}
+					blk.Header.Height = height
+					blk.Header.Bits = 0x207fffff
+					blk.Header.Timestamp = uint32(time.Now().Unix())
+					copy(blk.Header.Previous[:], r.Bytes(32))
+					if first >= 0 {
+						var outs []*ctypes.Output
+						for k := 0; k < nOut; k++ {
+							ph := n.Accounts[1].ProgramHash
+							if k == 0 && destroy {
+								ph = *n.Params.DestroyELAProgramHash
+							}
+							outs = append(outs, &ctypes.Output{AssetID: core.ELAAssetID, Value: 1, ProgramHash: ph, Type: ctypes.OTNone, Payload: &outputpayload.DefaultOutput{}})
+						}
+						var tx interfaces.Transaction
+						switch first {
+						case 0:
+							tx = functions.CreateTransaction(ctypes.TxVersion09, ctypes.CoinBase, 0, &payload.CoinBase{Content: r.Bytes(4)}, []*ctypes.Attribute{},
+								[]*ctypes.Input{{Previous: ctypes.OutPoint{TxID: common.EmptyHash, Index: math.MaxUint16}, Sequence: math.MaxUint32}}, outs, 0, []*program.Program{})
+						case 1:
+							tx = functions.CreateTransaction(ctypes.TxVersion09, ctypes.TransferAsset, 0, &payload.TransferAsset{}, []*ctypes.Attribute{},
+								[]*ctypes.Input{}, outs, 0, []*program.Program{})
+						default:
+							tx = functions.CreateTransaction(ctypes.TxVersion09, ctypes.RevertToPOW, 0, &payload.RevertToPOW{}, []*ctypes.Attribute{},
+								[]*ctypes.Input{}, outs, 0, []*program.Program{})
+						}
+						blk.Transactions = append(blk.Transactions, tx)
+					}
+					buf := new(bytes.Buffer)
+					if err := blk.Serialize(buf); err != nil {
+						continue
+					}
+					g.Emit("dpb %s", hx.Hex(buf.Bytes()))
+					if r.Chance(30) {
+						g.Emit("dpb %s", hx.Hex(wire.Mutate(r, buf.Bytes())))
+					}
+				}
+			}
+		}
+	}
+}
+
 func gen(g *hx.Gen) {
 	mrand.Seed(int64(g.Seed))
+	genDpb(g)
+	genTargeted(g)
 	genSweep(g)
 	genBlkc(g)
 	for i := 0; i < g.N(150, 2000); i++ {
